@@ -183,7 +183,9 @@ def t_nested(x):
 def t_desc_sleep(t):
     """a task whose worker has a live descendant (a plain subprocess) for as long as it runs"""
     import subprocess
-    subprocess.Popen([sys.executable, "-c", "import time; time.sleep(300)"])
+    # (detached from the harness's stdio: an orphan of a directly SIGKILLed worker must not keep those pipes open)
+    subprocess.Popen([sys.executable, "-c", "import time; time.sleep(25)"], stdin=subprocess.DEVNULL,
+                     stdout=subprocess.DEVNULL, stderr=subprocess.DEVNULL)
     time.sleep(t)
 
 
